@@ -638,6 +638,51 @@ inline std::vector<Model> api_models() {
 		if (s1::load(probe, bytes) != 0) vf::fatal(std::string("api model does not reload: ") + v.name);
 		ms.push_back({v.name, bytes, {}});
 	}
+	// hierarchical skeletons: a shape skinned to BoneA and to its child BoneB, and a model that already owns BoneA but
+	// not BoneB (a clone into it has to create the descendant under the node that is already there)
+	for (auto& v : {V{"api:SK+bone-chain", NiVersion::getSK()}, V{"api:SSE+bone-chain", NiVersion::getSSE()}, V{"api:SK+bone-root-only", NiVersion::getSK()}, V{"api:SSE+bone-root-only", NiVersion::getSSE()}}) {
+		const bool chain = std::string(v.name).find("bone-chain") != std::string::npos;
+		NifFile nif;
+		nif.Create(v.ver);
+		auto& hdr = nif.GetHeader();
+		std::vector<Vector3> verts = {{0.0f, 0.0f, 0.0f}, {1.0f, 0.0f, 0.25f}, {0.0f, 1.0f, 0.5f}, {1.0f, 1.0f, 0.75f}};
+		std::vector<Triangle> tris = {{0, 1, 2}, {1, 3, 2}};
+		std::vector<Vector2> uvs = {{0.0f, 0.0f}, {1.0f, 0.0f}, {0.0f, 1.0f}, {1.0f, 1.0f}};
+		std::vector<Vector3> norms(4, Vector3(0.0f, 0.0f, 1.0f));
+		MatTransform ta, tb;
+		ta.translation = Vector3(0.0f, 0.0f, 1.0f);
+		tb.translation = Vector3(0.0f, 0.5f, 0.0f);
+		NiNode* boneA = nif.AddNode("BoneA", ta, nif.GetRootNode());
+		NiNode* boneB = chain ? nif.AddNode("BoneB", tb, boneA) : nullptr;
+		NiShape* shape = nif.CreateShapeFromData(chain ? "ApiSkinned" : "ApiPlain", &verts, &tris, &uvs, &norms);
+		if (!shape) vf::fatal(std::string("api model has no shape: ") + v.name);
+		nif.CreateSkinning(shape);
+		std::vector<int> ids = {(int) hdr.GetBlockID(boneA)};
+		if (boneB) ids.push_back((int) hdr.GetBlockID(boneB));
+		nif.SetShapeBoneIDList(shape, ids);
+		for (uint32_t b = 0; b < ids.size(); b++) {
+			std::unordered_map<uint16_t, float> bw;
+			for (uint16_t i = 0; i < 4; i++) bw[i] = ids.size() == 1 ? 1.0f : 0.5f;
+			nif.SetShapeBoneWeights(shape->name.get(), b, bw);
+		}
+		if (dynamic_cast<BSTriShape*>(shape))
+			for (uint16_t i = 0; i < 4; i++) {
+				std::vector<uint8_t> bi = {0};
+				std::vector<float> bw = {1.0f};
+				if (ids.size() == 2) { bi = {0, 1}; bw = {0.5f, 0.5f}; }
+				nif.SetShapeVertWeights(shape->name.get(), i, bi, bw);
+			}
+		if (auto inst = hdr.GetBlock<NiSkinInstance>(shape->SkinInstanceRef()))
+			if (auto sd = hdr.GetBlock(inst->dataRef))
+				for (auto& bone : sd->bones)
+					std::stable_sort(bone.vertexWeights.begin(), bone.vertexWeights.end(), [](const SkinWeight& a, const SkinWeight& b2) { return a.index < b2.index; });
+		nif.UpdateSkinPartitions(shape);
+		std::string bytes = s1::save(nif, true);
+		if (bytes.empty()) vf::fatal(std::string("api model could not be saved: ") + v.name);
+		NifFile probe;
+		if (s1::load(probe, bytes) != 0) vf::fatal(std::string("api model does not reload: ") + v.name);
+		ms.push_back({v.name, bytes, {}});
+	}
 	return ms;
 }
 
